@@ -496,11 +496,13 @@ fn shipped_store_registrations(rep: &mut Report, args: &Args, only: Option<u64>)
             .collect();
         let kind = rng.below(10);
         let regs = rng.range(1, 3);
+        // the registrations of a run are for different accounts, or the same account registers again
+        let same_user = Rng::derive(args.seed, "c07sameuser", k).bool();
         let rk = rng.bool();
         let counters = rng.bool();
         let names = ["Option<Passkey>", "Arc<Mutex<Option<Passkey>>>", "Arc<RwLock<Option<Passkey>>>", "MemoryStore", "Arc<Mutex<MemoryStore>>", "Arc<RwLock<MemoryStore>>",
             "Arc<Mutex<reference store>>", "Arc<RwLock<reference store>>", "Mutex<reference store>", "RwLock<reference store>"];
-        let case = json!({"index": index, "store": names[kind], "credentials_before": existing.iter().map(|p| json!({"id": hex_short(&p.credential_id), "rp": p.rp_id})).collect::<Vec<_>>(), "registrations": regs, "rk": rk, "counters": counters});
+        let case = json!({"index": index, "store": names[kind], "credentials_before": existing.iter().map(|p| json!({"id": hex_short(&p.credential_id), "rp": p.rp_id})).collect::<Vec<_>>(), "registrations": regs, "rk": rk, "counters": counters, "same_account_registers_again": same_user});
         rep.eval();
         rep.nontrivial(fnv_str(&format!("shipped|{kind}|{occupied}|{regs}|{rk}")));
         let uv = crate::collab::RecUv::new(crate::collab::Log::new(), crate::collab::UvOutcome::Check { presence: true, verification: true }, Some(true));
@@ -510,7 +512,7 @@ fn shipped_store_registrations(rep: &mut Report, args: &Args, only: Option<u64>)
                 let store = $store;
                 let mut auth = mk_auth(store.clone(), uv.clone(), cfg);
                 for r in 0..regs {
-                    let req = mc_request(RP, format!("user-{r}").as_bytes(), &[1u8; 32], vec![pk_param(coset::iana::Algorithm::ES256)], None, None, rk, true, true);
+                    let req = mc_request(RP, format!("user-{}", if same_user { 0 } else { r }).as_bytes(), &[1u8; 32], vec![pk_param(coset::iana::Algorithm::ES256)], None, None, rk, true, true);
                     match catch(|| block_on(auth.make_credential(req))) {
                         Err((sig, d)) => rep.violate(&format!("shipped store: registration {sig}"), d, case.clone()),
                         Ok(Err(_)) => rep.count("shipped_reg_failed"),
@@ -536,7 +538,7 @@ fn shipped_store_registrations(rep: &mut Report, args: &Args, only: Option<u64>)
                 // a plain Option<Passkey> is moved into the authenticator: read it back through store()
                 let mut auth = mk_auth(single, uv.clone(), cfg);
                 for r in 0..regs {
-                    let req = mc_request(RP, format!("user-{r}").as_bytes(), &[1u8; 32], vec![pk_param(coset::iana::Algorithm::ES256)], None, None, rk, true, true);
+                    let req = mc_request(RP, format!("user-{}", if same_user { 0 } else { r }).as_bytes(), &[1u8; 32], vec![pk_param(coset::iana::Algorithm::ES256)], None, None, rk, true, true);
                     match catch(|| block_on(auth.make_credential(req))) {
                         Err((sig, d)) => rep.violate(&format!("shipped store: registration {sig}"), d, case.clone()),
                         Ok(Err(_)) => rep.count("shipped_reg_failed"),
@@ -556,14 +558,14 @@ fn shipped_store_registrations(rep: &mut Report, args: &Args, only: Option<u64>)
             3 => {
                 let mut auth = mk_auth(mem, uv.clone(), cfg);
                 for r in 0..regs {
-                    let req = mc_request(RP, format!("user-{r}").as_bytes(), &[1u8; 32], vec![pk_param(coset::iana::Algorithm::ES256)], None, None, rk, true, true);
+                    let req = mc_request(RP, format!("user-{}", if same_user { 0 } else { r }).as_bytes(), &[1u8; 32], vec![pk_param(coset::iana::Algorithm::ES256)], None, None, rk, true, true);
                     match catch(|| block_on(auth.make_credential(req))) {
                         Err((sig, d)) => rep.violate(&format!("shipped store: registration {sig}"), d, case.clone()),
                         Ok(Err(_)) => rep.count("shipped_reg_failed"),
                         Ok(Ok(resp)) => {
                             rep.count("shipped_reg_ok");
                             let id = authdata::decode(&resp.auth_data.to_vec()).ok().and_then(|d| d.attested.map(|a| a.cred_id)).unwrap_or_default();
-                            let held: Vec<Vec<u8>> = auth.store().values().map(|p| p.credential_id.to_vec()).collect();
+                            let held: Vec<Vec<u8>> = auth.store().iter().filter(|(k, p)| k.as_slice() == p.credential_id.as_slice()).map(|(k, _)| k.clone()).collect();
                             if !held.contains(&id) {
                                 rep.violate("shipped store: registration succeeded although the store does not hold the new credential", format!("{} after registration {r}: new id {}, store holds {:?}", names[kind], hex_short(&id), held.iter().map(|i| hex_short(i)).collect::<Vec<_>>()), case.clone());
                             }
@@ -571,7 +573,7 @@ fn shipped_store_registrations(rep: &mut Report, args: &Args, only: Option<u64>)
                     }
                 }
             }
-            4 => drive!(Arc::new(tokio::sync::Mutex::new(mem)), |s: &Arc<tokio::sync::Mutex<MemoryStore>>| s.try_lock().map(|g| g.values().map(|p| p.credential_id.to_vec()).collect::<Vec<_>>()).unwrap_or_default()),
+            4 => drive!(Arc::new(tokio::sync::Mutex::new(mem)), |s: &Arc<tokio::sync::Mutex<MemoryStore>>| s.try_lock().map(|g| g.iter().filter(|(k, p)| k.as_slice() == p.credential_id.as_slice()).map(|(k, _)| k.clone()).collect::<Vec<_>>()).unwrap_or_default()),
             6..=9 => {
                 // the library's four lock wrappers around the reference store (for which saving and
                 // updating are different things)
@@ -585,7 +587,7 @@ fn shipped_store_registrations(rep: &mut Report, args: &Args, only: Option<u64>)
                     ($wrapped:expr) => {{
                         let mut auth = mk_auth($wrapped, uv.clone(), cfg);
                         for r in 0..regs {
-                            let req = mc_request(RP, format!("user-{r}").as_bytes(), &[1u8; 32], vec![pk_param(coset::iana::Algorithm::ES256)], None, None, rk, true, true);
+                            let req = mc_request(RP, format!("user-{}", if same_user { 0 } else { r }).as_bytes(), &[1u8; 32], vec![pk_param(coset::iana::Algorithm::ES256)], None, None, rk, true, true);
                             match catch(|| block_on(auth.make_credential(req))) {
                                 Err((sig, d)) => rep.violate(&format!("shipped store: registration {sig}"), d, case.clone()),
                                 Ok(Err(_)) => rep.count("shipped_reg_failed"),
@@ -607,7 +609,7 @@ fn shipped_store_registrations(rep: &mut Report, args: &Args, only: Option<u64>)
                     _ => through!(tokio::sync::RwLock::new(rec)),
                 }
             }
-            _ => drive!(Arc::new(tokio::sync::RwLock::new(mem)), |s: &Arc<tokio::sync::RwLock<MemoryStore>>| s.try_read().map(|g| g.values().map(|p| p.credential_id.to_vec()).collect::<Vec<_>>()).unwrap_or_default()),
+            _ => drive!(Arc::new(tokio::sync::RwLock::new(mem)), |s: &Arc<tokio::sync::RwLock<MemoryStore>>| s.try_read().map(|g| g.iter().filter(|(k, p)| k.as_slice() == p.credential_id.as_slice()).map(|(k, _)| k.clone()).collect::<Vec<_>>()).unwrap_or_default()),
         }
     }
 }
@@ -755,9 +757,9 @@ fn records_leaving_during_the_prompt(rep: &mut Report, args: &Args, only: Option
         rep.eval();
         let mut rng = Rng::derive(args.seed, "c07leave", k);
         let kind = (k % 4) as usize;
-        let what = ((k / 4) % 3) as usize;
+        let what = ((k / 4) % 4) as usize;
         let names = ["Arc<Mutex<MemoryStore>>", "Arc<RwLock<MemoryStore>>", "Arc<Mutex<Option<Passkey>>>", "Arc<RwLock<Option<Passkey>>>"];
-        let whats = ["the record is removed", "the store is emptied", "nothing happens"];
+        let whats = ["the record is removed", "the store is emptied", "nothing happens", "another registration's credential takes the record's place"];
         let start = *rng.pick(&[0u32, 1, 41, 0x7FFF_FFFF, u32::MAX - 1]);
         let others = rng.range(0, 2);
         let case = json!({"index": index, "part": "record leaves the shared store during the prompt", "store": names[kind], "during_the_prompt": whats[what], "stored_counter": start, "other_records": others});
@@ -767,6 +769,8 @@ fn records_leaving_during_the_prompt(rep: &mut Report, args: &Args, only: Option
         let other: Vec<Passkey> = (0..others).map(|j| seeded_passkey(&mut rng, RP, &[0xB0 + j as u8; 20], Some(b"other"), Some(7), None).0).collect();
         let uv = crate::collab::RecUv::ok(crate::collab::Log::new());
         let req = ga_request(RP, &[4u8; 32], Some(vec![descriptor(&id)]), None, true, true);
+        let newcomer = seeded_passkey(&mut rng, RP, &[0xC7; 20], Some(b"newcomer"), Some(1), None).0;
+        let newcomer_held = std::sync::Arc::new(std::sync::atomic::AtomicBool::new(true));
         // (result, counter the store holds for the id afterwards)
         let outcome: Result<(Result<u32, u8>, Option<Option<u32>>), (String, String)> = if kind < 2 {
             let mut m = MemoryStore::new();
@@ -779,6 +783,7 @@ fn records_leaving_during_the_prompt(rep: &mut Report, args: &Args, only: Option
                     let shared = $shared;
                     let s2 = shared.clone();
                     let id2 = id.clone();
+                    let nc = newcomer.clone();
                     uv.set_action_during_check(Box::new(move || {
                         if let Ok(mut g) = s2.$w() {
                             match what {
@@ -786,6 +791,10 @@ fn records_leaving_during_the_prompt(rep: &mut Report, args: &Args, only: Option
                                     g.remove(&id2);
                                 }
                                 1 => g.clear(),
+                                3 => {
+                                    g.remove(&id2);
+                                    g.insert(nc.credential_id.to_vec(), nc);
+                                }
                                 _ => {}
                             }
                         }
@@ -793,7 +802,10 @@ fn records_leaving_during_the_prompt(rep: &mut Report, args: &Args, only: Option
                     let mut auth = mk_auth(shared.clone(), uv.clone(), AuthCfg { counters: true, ..Default::default() });
                     catch(|| {
                         let r = block_on(auth.get_assertion(req)).map(|r| authdata::decode(&r.auth_data.to_vec()).map(|d| d.counter).unwrap_or(0)).map_err(|e| status_byte_ref(&e));
-                        let held = shared.$r().ok().map(|g| g.get(&id).and_then(|p| p.counter));
+                        let held = shared.$r().ok().map(|g| {
+                            newcomer_held.store(g.contains_key(&vec![0xC7u8; 20]), std::sync::atomic::Ordering::SeqCst);
+                            g.get(&id).and_then(|p| p.counter)
+                        });
                         (r, held)
                     })
                 }};
@@ -804,17 +816,23 @@ fn records_leaving_during_the_prompt(rep: &mut Report, args: &Args, only: Option
                 ($shared:expr, $w:ident, $r:ident) => {{
                     let shared = $shared;
                     let s2 = shared.clone();
+                    let nc = newcomer.clone();
                     uv.set_action_during_check(Box::new(move || {
                         if let Ok(mut g) = s2.$w() {
                             if what < 2 {
                                 *g = None;
+                            } else if what == 3 {
+                                *g = Some(nc);
                             }
                         }
                     }));
                     let mut auth = mk_auth(shared.clone(), uv.clone(), AuthCfg { counters: true, ..Default::default() });
                     catch(|| {
                         let r = block_on(auth.get_assertion(req)).map(|r| authdata::decode(&r.auth_data.to_vec()).map(|d| d.counter).unwrap_or(0)).map_err(|e| status_byte_ref(&e));
-                        let held = shared.$r().ok().map(|g| g.as_ref().filter(|p| p.credential_id.to_vec() == id).and_then(|p| p.counter));
+                        let held = shared.$r().ok().map(|g| {
+                            newcomer_held.store(g.as_ref().map_or(false, |p| p.credential_id.to_vec() == vec![0xC7u8; 20]), std::sync::atomic::Ordering::SeqCst);
+                            g.as_ref().filter(|p| p.credential_id.to_vec() == id).and_then(|p| p.counter)
+                        });
                         (r, held)
                     })
                 }};
@@ -823,11 +841,17 @@ fn records_leaving_during_the_prompt(rep: &mut Report, args: &Args, only: Option
         };
         match outcome {
             Err((sig, d)) => rep.violate(&format!("shared shipped store: assertion {sig}"), d, case),
-            Ok((Err(_), _)) => rep.count("leaving_record_assertion_refused"),
+            Ok((Err(e), _)) => {
+                rep.count("leaving_record_assertion_refused");
+                // a failed authentication leaves the store as it was: the credential registered meanwhile is still there
+                if what == 3 && !newcomer_held.load(std::sync::atomic::Ordering::SeqCst) {
+                    rep.violate("shared shipped store: a failed assertion removed a credential another ceremony had registered meanwhile", format!("{}: status {e:#04x}", names[kind]), case);
+                }
+            }
             Ok((Ok(_), None)) => rep.count("leaving_record_store_unreadable"),
             Ok((Ok(c), Some(held))) => {
                 rep.count("leaving_record_assertion_returned");
-                if what < 2 {
+                if what != 2 {
                     rep.count("leaving_record_left_and_assertion_returned");
                 }
                 if held != Some(c) {
